@@ -498,6 +498,13 @@ theorem mod_nonzero {a b : F64} (h : toInt64 b ≠ 0) :
     intBinF modI a b = ofInt (Int.tmod (toInt64 a) (toInt64 b)) := by
   unfold intBinF modI; simp [h]
 
+/-- `int64(x)` truncates toward zero inside the int64 range. -/
+theorem toInt64_trunc {x : F64} (hf : x.isFinite = true) (h1 : minInt64 ≤ truncRat x.toRat)
+    (h2 : truncRat x.toRat ≤ maxInt64) : toInt64 x = truncRat x.toRat := by
+  unfold toInt64
+  have : ¬ (truncRat x.toRat < minInt64 ∨ maxInt64 < truncRat x.toRat) := by omega
+  simp [hf, this]
+
 theorem shl_neg {a b : F64} (h : toInt64 b < 0) : intBinF shlI a b = F64.nan := by
   unfold intBinF shlI; simp [h]
 
